@@ -404,7 +404,11 @@ func (w *World) Ctx() sdk.Context {
 	if h == 0 {
 		h = 1
 	}
-	return w.App.NewUncachedContext(false, cmtproto.Header{ChainID: ChainID, Height: h, Time: w.Now})
+	hdr := cmtproto.Header{ChainID: ChainID, Height: h, Time: w.Now}
+	if len(w.Vals) > 0 {
+		hdr.ProposerAddress = w.Vals[0].ConsAddr
+	}
+	return w.App.NewUncachedContext(false, hdr)
 }
 
 // Branch returns a cache-wrapped context over the committed state; writes are discarded.
